@@ -313,7 +313,9 @@ def validate_ttensor (core : List Nat) (fs : List MatS) : Except Reject Unit :=
 def validate_sumtensor (shapes : List (List Nat)) : Except Reject Unit :=
   rejectIf (!((shapes.drop 1).all fun s => shapes.getD 0 [] == s))
 
-/-- `tenmat(data, rdims, cdims, tshape)` -/
+/-- `tenmat(data, rdims, cdims, tshape)` (after commit 8a75720): cell counts, `gather_wrap_dims`,
+`mshape = (prod tshape[rdims], prod tshape[cdims])`, 1-d data whose size fits is reshaped to
+`mshape`, a matrix of any other shape is refused, then the permutation test -/
 def validate_tenmat (a : TenmatArgs) : Except Reject Unit :=
   let n := a.tshape.length
   if a.dshape.1 * a.dshape.2 != numel a.tshape then .error .reject
@@ -323,7 +325,9 @@ def validate_tenmat (a : TenmatArgs) : Except Reject Unit :=
     | some (r, c) =>
       match pyGather a.tshape r, pyGather a.tshape c with
       | .ok sr, .ok sc =>
-        if numel sr * numel sc != a.dshape.1 * a.dshape.2 then .error .reject
+        let mshape : MatS := (numel sr, numel sc)
+        let dshape : MatS := if a.vec && mshape.1 * mshape.2 == a.dshape.1 * a.dshape.2 then mshape else a.dshape
+        if dshape != mshape then .error .reject
         else rejectIf (!isPermOfI (r ++ c) n)
       | _, _ => .error .reject
 
